@@ -10,6 +10,7 @@ import (
 	"regexp"
 	"sort"
 	"strings"
+	"sync/atomic"
 	"time"
 
 	"verif/core"
@@ -88,7 +89,14 @@ func parseGooseErrors(stderr string) (errs []gooseErr, rest []string) {
 	return
 }
 
+// bigBudget: second-stage step budget of the reference interpreter (see evalCase).
+const bigBudget = 50_000_000
+
+// bigRuns counts second-stage evaluations of this process (capped: they cost seconds each).
+var bigRuns int64
+
 type tvOptions struct {
+	NativeNs     map[string]int64 // per case: shortest native running time (set by tvBatch per package)
 	CasePrefixes []string
 	GooseFlags   []string
 	MaxSteps     int64
@@ -184,7 +192,9 @@ func tvBatch(r *core.Run, dir string, gooseBin string, pkgs []*gorun.Pkg, opt tv
 				if len(prog.Index[cn]) == 0 {
 					c.Verdict = "not-emitted"
 				} else {
-					c.GL, c.Verdict = evalCase(prog, cn, gores, opt)
+					o := opt
+					o.NativeNs = b.Elapsed[p.Name]
+					c.GL, c.Verdict = evalCase(prog, cn, gores, o)
 				}
 			}
 			tp.Cases = append(tp.Cases, c)
@@ -238,10 +248,31 @@ func evalCase(prog *gl.Program, name string, gores gorun.CaseResult, opt tvOptio
 	}
 	for _, o := range outs {
 		if o.Kind == "budget" {
-			// every generated program is bounded by construction (literal loop bounds, no
-			// recursion beyond depth 10) and the native run returned: a deterministic emitted
-			// program that is still running after the step budget cannot produce Go's result
-			return "diverges: no result within the step budget of the reference interpreter", "mismatch"
+			// The native run returned. Generated programs are small but not uniformly so (nested ranges over a
+			// growing slice reach 10^5 iterations), so the first budget is only a filter: the case is run again
+			// with bigBudget steps. Divergence is claimed only if that is exhausted too AND the native run of the
+			// case took under 100 microseconds: a program the hardware finishes in 100 us executes < 3*10^5
+			// operations, i.e. < 3*10^6 model steps; bigBudget is 16 times that. The clock can only withhold the
+			// verdict (slow machine => inconclusive), never produce one.
+			if atomic.AddInt64(&bigRuns, 1) > 60 {
+				return "no result within the first step budget (second stage capped)", "inconclusive:budget"
+			}
+			o2, _ := gl.RunSequential(prog, gl.CapExact, name, bigBudget, dec, 30)
+			if o2.Kind == "value" && o2.Detail == gores.Value {
+				return o2.String(), "agree"
+			}
+			if o2.Kind != "budget" {
+				if o2.Kind == "unsupported" || o2.Kind == "internal" {
+					return o2.String(), "inconclusive:" + o2.Kind
+				}
+				return o2.String(), "mismatch"
+			}
+			if opt.NativeNs != nil {
+				if ns, ok := opt.NativeNs[name]; ok && ns < 100_000 {
+					return fmt.Sprintf("diverges: no result within %d steps of the reference interpreter although the native run took %d ns (%s)", bigBudget, ns, o2.Detail), "mismatch"
+				}
+			}
+			return "no result within the step budget (" + o2.Detail + ")", "inconclusive:budget"
 		}
 	}
 	// every policy gave a definite outcome different from Go's
